@@ -37,7 +37,7 @@ def main(argv):
             for v in out["violations"][:5]:
                 print("  VIOL", json.dumps(v)[:500])
             for lst in [out["spec"]["prelude"]] + out["spec"]["tasks"]:
-                print("  --", [(op.get("kind") or op.get("pseudo")) + ("" if "gold" in op or "pseudo" in op else "[skip]") for op in lst])
+                print("  --", [(op.get("kind") or op.get("pseudo")) + ("" if "gold" in op or "pseudo" in op else "[skip:%s]" % op.get("skip")) for op in lst])
             print("  sched", json.dumps(out["spec"]["schedule"])[:400])
             print("  faults", json.dumps(out["spec"]["faults"])[:300])
     return 0
